@@ -362,3 +362,123 @@ def field_reads(fn, owner_rx=None):
         if t["k"] == "drop":
             add(t["pl"])
     return out
+
+
+# ---- full data dependence ---------------------------------------------------------
+
+def data_deps(fn, local, stop_call=None):
+    """Backward data dependence: every local / call / const the value of `local` may be computed
+    from (all rvalue operands, all call arguments). Returns (locals, calls[(bb, term)], places)."""
+    cfg = fn.cfg
+    seen = set()
+    work = [local]
+    call_roots = []
+    places = []
+    while work:
+        l = work.pop()
+        if l in seen:
+            continue
+        seen.add(l)
+        for d in cfg.defs.get(l, []):
+            if d[0] == "call":
+                t = d[2]
+                call_roots.append((d[1], t))
+                if stop_call is not None and stop_call(t):
+                    continue
+                for a in t.get("args", []):
+                    p = op_place(a)
+                    if p:
+                        places.append(p)
+                        work.append(p["l"])
+            elif d[0] == "assign":
+                for p in rvalue_places(d[3]["r"]):
+                    places.append(p)
+                    work.append(p["l"])
+    return seen, call_roots, places
+
+
+def taint_forward(fn, sources, sanitiser=None):
+    """Forward data dependence from source locals: every local computed (through any rvalue or
+    call) from a tainted one. `sanitiser(term)` -> True stops propagation through that call."""
+    tainted = set(sources)
+    changed = True
+    while changed:
+        changed = False
+        for b in fn.blocks:
+            for s in b["st"]:
+                if "a" not in s:
+                    continue
+                if any(p["l"] in tainted for p in rvalue_places(s["r"])):
+                    if s["a"]["l"] not in tainted:
+                        tainted.add(s["a"]["l"])
+                        changed = True
+            t = b["t"]
+            if t["k"] == "call":
+                if sanitiser is not None and sanitiser(t):
+                    continue
+                if any((op_place(a) or {}).get("l") in tainted for a in t.get("args", [])):
+                    if t["dst"]["l"] not in tainted:
+                        tainted.add(t["dst"]["l"])
+                        changed = True
+    return tainted
+
+
+def same_value_locals(fn, local):
+    """locals holding the same value as `local` (copies / moves / int casts), both directions."""
+    grp = {local}
+    changed = True
+    while changed:
+        changed = False
+        for b in fn.blocks:
+            for s in b["st"]:
+                if "a" not in s or s["a"]["p"]:
+                    continue
+                r = s["r"]
+                if r["k"] in ("use", "cast") and len(r.get("ops", [])) == 1:
+                    p = op_place(r["ops"][0])
+                    if p is None or p["p"]:
+                        continue
+                    a, c = s["a"]["l"], p["l"]
+                    if (a in grp) != (c in grp):
+                        grp.add(a)
+                        grp.add(c)
+                        changed = True
+    return grp
+
+
+def upper_bounded_at(fn, local, bb, tainted):
+    """Is the value of `local` bounded above by an untainted value at block bb, through a dominating
+    comparison `local <= U` / `local < U` (any spelling / polarity)?"""
+    grp = same_value_locals(fn, local)
+    cfg = fn.cfg
+    for bi, b in enumerate(fn.blocks):
+        for s in b["st"]:
+            if "a" not in s or s["r"]["k"] != "bin" or s["r"].get("x") not in ("Lt", "Le", "Gt", "Ge"):
+                continue
+            ops = s["r"]["ops"]
+            pa, pb = op_place(ops[0]), op_place(ops[1])
+            la = pa["l"] if pa and not pa["p"] else None
+            lb = pb["l"] if pb and not pb["p"] else None
+            op = s["r"]["x"]
+            # normalise to: x OP other
+            if la in grp and (lb is None or lb not in tainted):
+                rel = op           # x op U
+            elif lb in grp and (la is None or la not in tainted):
+                rel = {"Lt": "Gt", "Le": "Ge", "Gt": "Lt", "Ge": "Le"}[op]   # U op x  ==  x rel U
+            else:
+                continue
+            cmp_local = s["a"]["l"]
+            for sw in value_switches(fn, cmp_local, through_calls=None):
+                if sw["kind"] != "bool":
+                    continue
+                f_t = sw["targets"].get("0")
+                t_t = sw["otherwise"]
+                if f_t is None:
+                    continue
+                if sw["inverted"]:
+                    t_t, f_t = f_t, t_t
+                # x < U or x <= U holds on the true edge of Lt/Le, on the false edge of Gt/Ge
+                good = t_t if rel in ("Lt", "Le") else f_t
+                if good is not None and good != (f_t if good == t_t else t_t) and cfg.edge_dominates(sw["bb"], good, bb):
+                    return True
+    return False
